@@ -261,11 +261,6 @@ func mixAndValidate(c *core.Ctx, drv string) error {
 		return nil
 	}
 	c.Set("trace_event_counts", resp.Counts)
-	for _, k := range requiredTraceEvents {
-		if resp.Counts[k] == 0 {
-			return fmt.Errorf("vacuous: the concurrent mixes never produced a %q event (counts %v)", k, resp.Counts)
-		}
-	}
 	tb, err := os.ReadFile(out)
 	if err != nil {
 		return err
@@ -309,6 +304,11 @@ func mixAndValidate(c *core.Ctx, drv string) error {
 	}
 	if c.NViolations() > 0 {
 		return nil
+	}
+	for _, k := range requiredTraceEvents {
+		if resp.Counts[k] == 0 {
+			return fmt.Errorf("vacuous: the concurrent mixes never produced a %q event (counts %v)", k, resp.Counts)
+		}
 	}
 	c.Sample(map[string]any{"trace_events": rawLines(lines, 40, 52)})
 
